@@ -411,7 +411,7 @@ def r10_answer_provenance(ctx):
 
     seen_locals = set()
 
-    def walk(t, depth=0):
+    def walk(t, depth=0, field=None):
         if not isinstance(t, tuple) or depth > 12:
             return
         if t[0] == "call":
@@ -422,27 +422,57 @@ def r10_answer_provenance(ctx):
                 return
             if tail not in allowed_tail:
                 foreign.append(k)
-            for a_ in t[2]:
-                walk(a_, depth + 1)
+            # `opt.and_then(|it| it.root.mv)`: the closure takes one field of the payload - only that field's sources count
+            sub = field
+            cls_ = [a_ for a_ in t[2] if a_[0] == "agg" and a_[1] == "closure"]
+            if tail in ("and_then", "map", "map_or", "filter", "is_some_and") and len(cls_) == 1 and prog.fns.get(cls_[0][2]):
+                g = prog.fns[cls_[0][2]]
+                names = set()
+                for blk in g["blocks"]:
+                    pls = [s_["rv"]["place"] for s_ in blk["stmts"] if "place" in s_["rv"]] + [a2["pl"] for s_ in blk["stmts"] for a2 in s_["rv"].get("a", []) if a2.get("k") in ("copy", "move")]
+                    pls += [a2["pl"] for a2 in (blk["term"].get("args") or []) if a2.get("k") in ("copy", "move")]
+                    for pl in pls:
+                        if pl["l"] == 2:
+                            nm = [e.get("name") for e in pl["p"] if isinstance(e, dict) and e.get("name")]
+                            names.add(nm[0] if nm else None)
+                if len(names) == 1 and None not in names:
+                    sub = names.pop()
+            for i_, a_ in enumerate(t[2]):
+                walk(a_, depth + 1, field=sub if i_ == 0 else None)
         elif t[0] == "agg":
             if t[1] == "closure":
                 for ck in closure_calls(t[2]):
                     if ck.rsplit("::", 1)[-1] not in allowed_tail:
                         foreign.append(ck)
+            if field is not None and t[1] == "adt":
+                adt = prog.adts.get(str(t[2]).rsplit("::", 1)[0])
+                vn = str(t[2]).rsplit("::", 1)[-1]
+                names_ = next(([fl.get("name") for fl in v.get("fields", [])] for v in (adt or {}).get("variants", []) if v.get("name") == vn), None)
+                if names_ and field in names_ and names_.index(field) < len(t[3]):
+                    walk(t[3][names_.index(field)], depth + 1)
+                    return
             for a_ in t[3]:
-                walk(a_, depth + 1)
+                walk(a_, depth + 1, field=field if str(t[2]).endswith(("Option::Some", "Result::Ok")) else None)
         elif t[0] == "local":
-            if t[1] in seen_locals:
+            if (t[1], field) in seen_locals:
                 return
-            seen_locals.add(t[1])
+            seen_locals.add((t[1], field))
             for dfn in ex.defs.get(t[1], ()):
                 if dfn[0] == "stmt":
-                    walk(ex.rvalue(dfn[3]), depth + 1)
+                    rv_ = dfn[3]
+                    if field is not None and rv_.get("op") == "agg" and field in (rv_.get("fields") or []):
+                        # one field of a struct that bundles the accepted iteration's results: only what went into
+                        # that field
+                        walk(ex.operand(rv_["a"][rv_["fields"].index(field)]), depth + 1)
+                        continue
+                    walk(ex.rvalue(dfn[3]), depth + 1, field=field if rv_.get("op") in ("use", "agg") else None)
                 elif dfn[0] == "call":
                     tt = dfn[3]
                     walk(("call", tt["callee"].get("key") or "?", tuple(ex.operand(a_) for a_ in tt["args"]), ""), depth + 1)
-        elif t[0] in ("f", "*", "&", "dc", "cast", "un", "discr"):
-            walk(t[1] if t[0] != "cast" and t[0] != "un" else t[2], depth + 1)
+        elif t[0] == "f":
+            walk(t[1], depth + 1, field=t[2] if isinstance(t[2], str) and not t[2].isdigit() else field)
+        elif t[0] in ("*", "&", "dc", "cast", "un", "discr"):
+            walk(t[1] if t[0] != "cast" and t[0] != "un" else t[2], depth + 1, field=field if t[0] in ("*", "&", "dc") else None)
         elif t[0] == "bin":
             walk(t[2], depth + 1)
             walk(t[3], depth + 1)
